@@ -250,6 +250,12 @@ def run_shard(ctx: Ctx) -> None:
         run_doc(ctx, richgen.generate(ctx.rng, allow=allow), ctx.shard * 1000 + 500 + b)
         ctx.rec.count("rich_documents")
     run_catalogue(ctx)
+    # a document that is merely large (hundreds of references to one finished schema): order must still not matter
+    if ctx.shard in (0, 1, 2):
+        from .. import graphgen
+        wdoc, _ = graphgen.wide_doc(["audit_info", "AuditInfo", "HTTPAudit"][ctx.shard])
+        ctx.rec.count("wide_documents")
+        run_doc(ctx, specgen.Doc(wdoc, {}, [], {"wide_document"}), ctx.shard * 1000 + 990)
 
 
 def run_catalogue(ctx: Ctx) -> None:
